@@ -72,7 +72,7 @@ theorem int_literal_agrees {env : Env} {e : Expr} (hwf : e.wf = true) {pv v : In
     the accepted grammar. -/
 theorem enum_blocks_preserved (b : BlockCfg) (ms : List Member) (vs : List Int)
     (hok : EnumOK b.cfg ms) (hen : isIdent b.cfg.ename = true) (hcn : isIdent (cEnumName b.cfg) = true)
-    (hne : ms ≠ []) (h : cxxEnum ms = some vs) :
+    (hne : ms ≠ []) (hwc : b.wrapC = true) (hwf : b.wrapF = true) (h : cxxEnum ms = some vs) :
     evalBlockC (cBlock b (enumMembers b.cfg ms)) = some vs ∧
     evalBlockF (fBlock b (enumMembers b.cfg ms)) = some vs := by
   have hos := enumLoop_ok hok ms (.int 0) (fun _ hm => hm)
@@ -88,19 +88,29 @@ theorem enum_blocks_preserved (b : BlockCfg) (ms : List Member) (vs : List Int)
   obtain ⟨hC, hF⟩ := enum_values_preserved b.cfg ms vs hok h
   constructor
   · unfold evalBlockC
-    rw [parseBlockC_cBlock b (enumMembers b.cfg ms) hne' (fun o ho => (hos o ho).1) hen' hcn]
+    rw [parseBlockC_cBlock b (enumMembers b.cfg ms) hne' (fun o ho => (hos o ho).1) hen' hcn hwc]
     exact hC
   · unfold evalBlockF
-    rw [fBlock_parse b (enumMembers b.cfg ms) (fun o ho => (hos o ho).2) hen']
+    rw [fBlock_parse b (enumMembers b.cfg ms) (fun o ho => (hos o ho).2) hen' hwf]
     exact hF
 
 /-- The Fortran block needs no non-emptiness. -/
 theorem enum_fortran_block (b : BlockCfg) (ms : List Member) (vs : List Int)
-    (hok : EnumOK b.cfg ms) (hen : isIdent b.cfg.ename = true) (h : cxxEnum ms = some vs) :
+    (hok : EnumOK b.cfg ms) (hen : isIdent b.cfg.ename = true) (hwf : b.wrapF = true) (h : cxxEnum ms = some vs) :
     evalBlockF (fBlock b (enumMembers b.cfg ms)) = some vs := by
   unfold evalBlockF
-  rw [fBlock_parse b (enumMembers b.cfg ms) (fun o ho => (enumLoop_ok hok ms (.int 0) (fun _ hm => hm) o ho).2) (isWord_of_isIdent hen)]
+  rw [fBlock_parse b (enumMembers b.cfg ms) (fun o ho => (enumLoop_ok hok ms (.int 0) (fun _ hm => hm) o ho).2) (isWord_of_isIdent hen) hwf]
   exact (enum_values_preserved b.cfg ms vs hok h).2
+
+/-- **Wrap flags.**  An enumeration whose `wrap_c` / `wrap_fortran` / `wrap_python`
+    option is off (its own, or inherited from its class) writes nothing into that
+    language's output, whatever its members; the other languages are unaffected
+    (the value theorems above hold under the flag of their language alone). -/
+theorem enum_off_for_language_writes_nothing (b : BlockCfg) (ms : List Member) (os : List Out) :
+    (b.wrapC = false → cBlock b os = []) ∧
+    (b.wrapF = false → fBlock b os = []) ∧
+    (b.wrapPy = false → pyItems b ms = []) := by
+  refine ⟨?_, ?_, ?_⟩ <;> intro h <;> simp [cBlock, fBlock, cItems, fItems, pyItems, h, renderItems]
 
 /-! ### the Python wrapper writes the enumerator itself -/
 
@@ -122,20 +132,20 @@ theorem py_value_is_enumerator (b : BlockCfg) (n : Str) : pyDenotes b (pyValueEx
     simp
 
 /-- one line per member, in order, under the member's own name -/
-theorem py_module_items (b : BlockCfg) (ms : List Member) (h : b.inClass = false) :
+theorem py_module_items (b : BlockCfg) (ms : List Member) (h : b.inClass = false) (hw : b.wrapPy = true) :
     pyItems b ms = [[], "// enum ".toList ++ b.nsScope ++ b.cfg.ename] ++
       ms.map (fun m => "PyModule_AddIntConstant(m, \"".toList ++ m.1 ++ "\", ".toList ++ pyValueExpr b m.1 ++ ");".toList) := by
-  simp [pyItems, h]
+  simp [pyItems, h, hw]
 
 /-- class scope: one `tp_dict` entry per member, in order, under the member's own
     name, its value the enumerator itself (`py_value_is_enumerator`) -/
-theorem py_class_items (b : BlockCfg) (ms : List Member) (h : b.inClass = true) :
+theorem py_class_items (b : BlockCfg) (ms : List Member) (h : b.inClass = true) (hw : b.wrapPy = true) :
     pyItems b ms = ["\n{+".toList, "// enumeration ".toList ++ b.cfg.ename, "PyObject *tmp_value;".toList] ++
       ms.map (fun m =>
         "tmp_value = PyLong_FromLong(".toList ++ pyValueExpr b m.1 ++ ");\n".toList ++
         "PyDict_SetItemString((PyObject*) ".toList ++ b.pyType ++ ".tp_dict, \"".toList ++ m.1 ++
         "\", tmp_value);\n".toList ++ "Py_DECREF(tmp_value);".toList) ++ ["-}".toList] := by
-  simp [pyItems, h]
+  simp [pyItems, h, hw]
 
 /-! ### why the two repairs were needed (the observers reject / misread the old text) -/
 
@@ -186,7 +196,7 @@ def exBlock : BlockCfg := { cfg := exCfg, nsScope := "ns1::".toList, scopeWord :
 
 example : evalBlockC (cBlock exBlock (enumMembers exCfg exEnum)) = some [0, 8, 9, 2, -5, -4] ∧
     evalBlockF (fBlock exBlock (enumMembers exCfg exEnum)) = some [0, 8, 9, 2, -5, -4] :=
-  enum_blocks_preserved exBlock exEnum _ exEnum_ok (by decide) (by decide) (by decide) (by decide)
+  enum_blocks_preserved exBlock exEnum _ exEnum_ok (by decide) (by decide) (by decide) rfl rfl (by decide)
 
 /-- the C block of that enumeration as written to the header -/
 example : (cBlock exBlock (enumMembers exCfg exEnum)).map String.ofList =
